@@ -565,6 +565,22 @@ pub fn hostile_probe(s: &Sim, full: bool) -> StateObs {
             note(&mut o, format!("execute {:?} by {p} with {:?}", msg, funds), &out.panicked);
         }
     }
+    // the same messages executed outside a transaction (governance proposal, end-blocker): no transaction
+    // index in the environment. Every third message, from the admin and one hook account.
+    for (i, (msg, funds)) in hostile_exec_menu(s).into_iter().enumerate() {
+        if i % 3 != 0 {
+            continue;
+        }
+        for p in [&senders[0], &senders[senders.len() - 2]] {
+            let mut w = s.w.clone();
+            for (d, a) in &funds {
+                w.credit(p, d, *a);
+            }
+            let out = mwsim::world::outside_transaction(|| w.exec(p, msg.clone(), &funds));
+            o.probes += 1;
+            note(&mut o, format!("execute outside a transaction {:?} by {p} with {:?}", msg, funds), &out.panicked);
+        }
+    }
     // queries
     let mut qs: Vec<QueryMsg> = vec![QueryMsg::Config {}, QueryMsg::State {}, QueryMsg::PendingBatch {}];
     for id in [0, 1, s.m.pending, u64::MAX] {
